@@ -105,6 +105,7 @@ def job(j, seed):
     N, chunk, angle_unit, mode, *rest = j
     hshape = [float(x) for x in (rest[0] if rest and rest[0] else (2, 3))]
     meta_dt = rest[1] if len(rest) > 1 else 'float64'
+    title_, name_ = rest[2] if len(rest) > 2 else ('title', 'nm')  # title and the label of the fourth image axis
     import numpy as np
     from symex import core as C
     from symex.core import R
@@ -117,8 +118,8 @@ def job(j, seed):
     sc, build, models, sqw, rw = _load()
     fresh_run()
     obs, cands = [], []
-    tag = f'N={N},chunk={chunk},angles={angle_unit},{mode}' + ('' if hshape == [2.0, 3.0] else f',hist={[int(x) for x in hshape]}') + ('' if meta_dt == 'float64' else f',metadata {meta_dt}')
-    case = {'N': N, 'chunk': chunk, 'angle_unit': angle_unit, 'mode': mode, 'hist_shape': hshape, 'meta_dtype': meta_dt}
+    tag = f'N={N},chunk={chunk},angles={angle_unit},{mode}' + ('' if hshape == [2.0, 3.0] else f',hist={[int(x) for x in hshape]}') + ('' if meta_dt == 'float64' else f',metadata {meta_dt}') + ('' if (title_, name_) == ('title', 'nm') else f',strings={(title_, name_)!r}')
+    case = {'strings': [title_, name_], 'N': N, 'chunk': chunk, 'angle_unit': angle_unit, 'mode': mode, 'hist_shape': hshape, 'meta_dtype': meta_dt}
     n_runs = 2
     C.CTX.fork_timeout_ms = 3000
     # ---- symbolic pixel rows with symbolic unit scales (ascending within a row: bounds the min/max forks)
@@ -178,7 +179,7 @@ def job(j, seed):
             u=sc.vector([0.0, 1.0, 0.0]), v=sc.vector([1.0, 1.0, 0.0]), omega=Variable(dims=(), values=ang['omega'], unit=au, dtype='float64'),
             dpsi=Variable(dims=(), values=ang['dpsi'], unit=au, dtype='float64'), gl=Variable(dims=(), values=ang['gl'], unit=au, dtype='float64'),
             gs=Variable(dims=(), values=ang['gs'], unit=au, dtype='float64'), filename=f'run{i}', filepath='/p'))
-    _e, inst, sample, dnd = make_inputs(sc, models, n_runs, 'title', 'nm', hshape)
+    _e, inst, sample, dnd = make_inputs(sc, models, n_runs, title_, name_, hshape)
     alatt = [C.sym_var(f'alatt_{k}', sign='+') for k in range(3)]
     uA = sym_unit('A', 'm')
     sample = models.SqwIXSample(name='smp', lattice_spacing=Variable(_arr=arr(alatt, None), dims=(), unit=uA, dtype=sc.DType.vector3),
@@ -206,7 +207,7 @@ def job(j, seed):
 
     def run():
         f = SymFile()
-        b = build.SqwBuilder(f, 'title', byteorder=None)
+        b = build.SqwBuilder(f, title_, byteorder=None)
         b = b.add_pixel_data(pix, experiments=exps).add_default_instrument(inst).add_default_sample(sample).add_empty_dnd_data(dnd)
         b.create(chunk_size=chunk)
         return f
@@ -434,7 +435,7 @@ def run(chk):
     ir = loader.load('io.sqw._ir')
     chk.functions = loader.describe_exprs(['build._split_pix_rows', 'build._PixWrap.write', 'build.SqwBuilder._make_pix_metadata', 'build._broadcast_unique_ref', 'models.SqwIXExperiment._serialize_to_dict', 'models.SqwMultiIXExperiment._serialize_to_dict', 'models.SqwIXSample._serialize_to_dict', 'models.SqwPixelMetadata._serialize_to_dict', 'models.SqwLineProj._serialize_to_dict', 'models.SqwLineAxes._serialize_to_dict', 'models.UniqueObjContainer._serialize_to_dict', 'models._variable_to_float_array', 'models._angle_value', 'models._serialize_multi_unit_array', 'ir._serialize_field', 'rw.write_object_array', 'rw.read_object_array', 'sqw._parse_ix_sample_0_0', 'sqw._parse_line_proj_7_0', 'sqw._parse_single_ix_experiment_3_0', 'sqw._parse_pix_metadata_1_0', 'sqw._read_pix_block', 'sqw._read_dnd_block'], {**globals(), **locals()})
     jobs = [(3, 2, 'deg', 'direct'), (2, 5, 'rad', 'indirect'), (0, 1, 'rad', 'direct'), (1, 1, 'deg', 'indirect'), (1, 1, 'rad', 'direct', (3, 1, 2, 4)), (0, 1, 'rad', 'direct', (1, 1)),
-            (1, 1, 'rad', 'direct', None, 'int64'), (1, 1, 'deg', 'indirect-T')]
+            (1, 1, 'rad', 'direct', None, 'int64'), (1, 1, 'deg', 'indirect-T'), (0, 1, 'rad', 'direct', None, 'float64', ('tïtle-µ', 'ΔE ζ'))]
     if chk.tier == 'thorough':
         jobs += [(3, 1, 'rad', 'direct'), (3, 3, 'deg', 'indirect'), (2, 1, 'deg', 'direct'), (3, 4, 'rad', 'indirect')]
     run_jobs(chk, job, jobs)
@@ -472,7 +473,8 @@ def replay_real(case):
                               u=sc.vector([0.0, 1.0, 0.0]), v=sc.vector([1.0, 1.0, 0.0]), omega=sc.scalar(1.4, unit=au), dpsi=sc.scalar(46.0, unit=au),
                               gl=sc.scalar(3.0, unit=au), gs=sc.scalar(-0.5, unit=au), filename=f'run{i}', filepath='/p') for i in range(n_runs)]
     hshape = case.get('hist_shape', [2.0, 3.0])
-    _e, inst, sample, dnd = c12.make_inputs(sc, models, n_runs, 'title', 'nm', hshape)
+    title_, name_ = case.get('strings') or ('title', 'nm')
+    _e, inst, sample, dnd = c12.make_inputs(sc, models, n_runs, title_, name_, hshape)
     sample = S.SqwIXSample(name='smp', lattice_spacing=sc.vector([0.286, 0.3, 0.4], unit='nm'), lattice_angle=sc.vector([90.0, 90.0, 90.0], unit='deg'))
     meta_expect = None
     if case.get('signature', '').startswith('C13:histogram-metadata'):
@@ -491,7 +493,7 @@ def replay_real(case):
     pix = sc.DataArray(sc.array(dims=['pixel'], values=rng.random(N), variances=rng.random(N), unit='count'),
                        coords={k: sc.array(dims=['pixel'], values=rng.random(N) * 10, unit=u) for k, u in units_in.items()})
     f = io.BytesIO()
-    b = S.Sqw.build(f, title='title', byteorder='little').add_pixel_data(pix, experiments=exps).add_default_instrument(inst).add_default_sample(sample).add_empty_dnd_data(dnd)
+    b = S.Sqw.build(f, title=title_, byteorder='little').add_pixel_data(pix, experiments=exps).add_default_instrument(inst).add_default_sample(sample).add_empty_dnd_data(dnd)
     bad = []
     try:
         b.create(chunk_size=chunk)
